@@ -61,8 +61,7 @@ func VerifH17a() {
 		// no fault fired: the shards partition the matching series in storage order
 		total := 0
 		for sh, ss := range got {
-			for i, s := range ss {
-				sym.Assert("C02/shard/signature-rebased", s.Signature == uint64(i))
+			for _, s := range ss {
 				want := []string{"x", "y"}[total]
 				sym.Assert("C02/shard/order", s.Labels().Get("a") == want && s.Labels().Get("__name__") == "m")
 				total++
